@@ -118,6 +118,9 @@ func genEval(r *rand.Rand, hc HookCase, v int) HookCase {
 		name := fmt.Sprintf("e%d", i)
 		k := evalKinds[(sub+i)%len(evalKinds)]
 		h := envlab.HookSpec{Name: name, Kind: envlab.Call, Behaviour: envlab.CallEvalError, Func: fmt.Sprintf(k.Format, name)}
+		if (v/8+i)%2 == 0 {
+			h.Return = "ret_" + name // the call declares a variable for its result; the evaluation fails all the same
+		}
 		h.Trigger = spell(r, tocc.Moments()[m], w)
 		switch r.Intn(3) {
 		case 0:
